@@ -32,7 +32,7 @@ T_FLAG_VALUE = "c02-flag-name-as-keyword-value"     # fixed 2de8cc8: `key=only` 
 T_BACKSLASH = "c02-string-ending-in-backslash"      # fixed d29898a: "a\\\\" followed by more arguments raised TemplateSyntaxError (the \\" was taken for an escaped quote)
 
 CTX = {"i": 5, "s": "str", "l": [1, 2, 3], "d": {"a": 1, "b": 2}, "n": None, "t": True, "o": {"k": "v w", "z": [7, 8]},
-       "e": [], "q": "it's \"q\"", "only": "ONLY", "required": 9}
+       "e": [], "q": "it's \"q\"", "only": "ONLY", "required": 9, "D": {"Aa": 1, "b-c": 2, "Cc": 3}}
 
 CORPUS = [
     {"body": "...d|default:d", "expect": [[], {"a": 1, "b": 2}], "trigger": T_SPREAD_FILTER},
@@ -142,7 +142,7 @@ def leaf_text(lf):
 def gen_leaf(rng, filters=True, key=False):
     r = rng.random()
     if key:
-        lf = rng.choice([{"k": "str", "c": rng.choice(["k", "a b", "x-y", "1", "été"]), "q": rng.choice("\"'")},
+        lf = rng.choice([{"k": "str", "c": rng.choice(["k", "a", "b", "z", "k", "a b", "x-y", "1", "été"]), "q": rng.choice("\"'")},
                          {"k": "num", "t": str(rng.choice([0, 1, 7]))}, {"k": "var", "t": rng.choice(["s", "i", "o.k"])}])
         if rng.random() < 0.15 and lf["k"] != "num":
             lf["f"] = [(rng.choice(["upper", "lower"]) if lf["k"] == "str" or lf["t"] != "i" else "add", None)]
@@ -218,15 +218,15 @@ def gen_arglist(rng, flags):
         elif x < 0.22:
             args.append({"k": "aspread", "v": gen_list(rng, 1)})
         else:
-            args.append({"k": "pos", "v": gen_value(rng, 2)})
+            args.append({"k": "pos", "v": gen_value(rng, 3 if rng.random() < 0.25 else 2)})
     keys = rng.sample(KEYS, rng.randint(0, 4))
-    kws = [{"k": "kw", "key": k, "v": gen_value(rng, 2)} for k in keys]
+    kws = [{"k": "kw", "key": k, "v": gen_value(rng, 3 if rng.random() < 0.25 else 2)} for k in keys]
     if rng.random() < 0.3:
         outer, inners = rng.choice(AGG)
         for inner in rng.sample(inners, rng.randint(1, min(3, len(inners)))):
             kws.append({"k": "kw", "key": outer + ":" + inner, "v": gen_value(rng, 1)})
     if rng.random() < 0.2:
-        kws.append({"k": "aspread", "v": {"k": "leaf", "leaf": {"k": "var", "t": "d"}}})
+        kws.append({"k": "aspread", "v": {"k": "leaf", "leaf": {"k": "var", "t": rng.choice(["d", "d", "D"])}}})
     elif rng.random() < 0.1:
         kws.append({"k": "aspread", "v": {"k": "dict", "ents": [{"k": "pair", "key": {"k": "str", "c": "lit", "q": '"'}, "v": gen_value(rng, 1)}]}})
     rng.shuffle(kws)
@@ -509,6 +509,7 @@ INVALID = [  # documented as invalid -> TemplateSyntaxError, never re-interprete
     "k=...d", "a=[...l]", "a={...d}", "a=[**d]", "a={*l}", "a={'k': **d}", "a={**d: 1}", "a=l|...d", "a=s|*l", "a={'k': ...d}",
     "a=[1, 2", "a={'k': 1", "a={'k'}", "a={'k': 1, 'j'}", "a={[1]: 2}", "a={{'x': 1}: 2}", "a=[1]]", "a=1,", "a=|upper", "a=s|:x",
     "...", "... d", "a={'k':: 1}", "a={:1}", "a=_('x", "only only",
+    "attrs:x=1 attrs=d", "attrs=d attrs:x=1", "a=[[...l]]", "a=[{*l}]", "a={'k': [**d]}", "a=s | ...d", "**d", "*l",
 ]
 
 EXPLORE = [  # outside the statement / undocumented: reported in the evidence, never an alarm
@@ -606,10 +607,12 @@ def same(a, b):
 def classify(al_text, items=None):
     """decidable trigger class of a failing input"""
     import re
-    if re.search(r"(^|\s)\.\.\.[^\s|]*\|", al_text):
+    if re.search(r"(^|\s)\.\.\.[^\s|]*\s*\|", al_text):
         return T_SPREAD_FILTER
     if re.search(r"(^|\s)[^\s=]+=(only|required)(\s|$)", al_text):
         return T_FLAG_VALUE
+    if re.search(r"\\\\[\"']\s+\S", al_text):          # ...\\" more : a string literal ending in an escaped backslash, then more text
+        return T_BACKSLASH
     return T_DENOTE
 
 
@@ -786,17 +789,22 @@ def run(tier, seed):
         "context values are str / int / bool / None / list / dict with str keys",
     ]
     return chk.finish(
-        rule="argument-list STRUCTURES from the documented grammar (positional values, special-character and aggregate keys, list/dict literals nested to depth 2, "
-             "* / ** / ... spreads of variables and literals, filters with arguments, _() and nested-template strings, flags, self-closing slash), each printed in "
-             "%d layouts (canonical + random whitespace runs / line breaks / trailing commas / quote style / spaces around | and :) and rendered through "
-             "{%% component %%} (observed at get_context_data) and a probe BaseNode (observed at render); %d documented-invalid combinations x 3 contexts x 2 tags; "
-             "mutations of printed argument lists and %d undocumented forms for model == implementation only. Non-trivial = the body contains a container, "
-             "filter, spread or key. Distinct = distinct (tag, body)." % (n_lay, len(INVALID), len(EXPLORE)),
-        explanation="theorems of Props/C02.v re-checked by coqc; independent denotation (Python list/dict semantics + Django leaf evaluation) compared with what "
-                    "the receivers get for every layout; run_tag model (parse_tag + resolve + flags + spreads + aggregation + binding) evaluated by vm_compute "
-                    "inside Coq on the text each tag hands to parse_tag and compared with the observed args / kwargs / flags / exception class.",
-        extra_trusted=["modelled, not verified: Django FilterExpression/Variable/Template (leaf values enter the model through an environment computed by Django); "
-                       "Token.split_contents + re-join in the component tag_fn (covered by the direct oracle only)"])
+        rule="argument-list STRUCTURES from the documented grammar (positional values, special-character and aggregate keys, list/dict literals nested to depth 3, "
+             "* / ** / ... spreads of variables and of literals at every level, filters with arguments, _() and nested-template strings, strings with quotes / "
+             "backslashes / ending in a backslash, flags, self-closing slash), each printed by the Python mirror of Spec.print in %d layouts (canonical; random "
+             "layout tables: white-space runs incl. tab / newline / CR LF / FF at every insignificant position, optional trailing commas, white space around | and : "
+             "and inside _( ); odd layouts in the other quote style where equivalent; the last two with the slash flipped) and rendered through {%% component %%} "
+             "(observed at get_context_data) and a probe BaseNode (observed at render); %d documented-invalid combinations x 3 contexts x 2 tags; mutations of "
+             "printed argument lists and %d undocumented forms for M-model == implementation only. Non-trivial = the body contains a container, filter, spread or "
+             "key. Distinct = distinct (tag, body)." % (n_lay, len(INVALID), len(EXPLORE)),
+        explanation="theorems of Props/C02.v re-checked by coqc (parse_print_denote for the full grammar, all layouts); per generated case: (direct) independent "
+                    "denotation (Python list/dict semantics + Django leaf evaluation) == what the receivers get, and all layouts of one structure agree; (S) inside "
+                    "Coq: arglist_ok, Spec.print of the structure under the layout table == the text the implementation's parse_tag received, Spec.denote == the "
+                    "received args / kwargs / flags; (M) run_tag (parse_tag + flags + resolve + spreads + aggregation + binding) on that text == received values / "
+                    "exception class, also for invalid / undocumented / mutated strings.",
+        extra_trusted=["modelled, not verified: Django FilterExpression/Variable/Template (leaf values enter the models through a table computed by Django); "
+                       "Token.split_contents + re-join in the component tag_fn and Django's stripping of tag contents are not modelled (tied by the S check: print under "
+                       "the single-space layout == received text, and by the direct oracle)"])
 
 
 def replay(path):
